@@ -8,6 +8,8 @@ import (
 	"github.com/marekgalovic/anndb/index"
 	"github.com/marekgalovic/anndb/index/space"
 
+	"google.golang.org/grpc/codes"
+
 	"github.com/marekgalovic/anndb/verifrt"
 )
 
@@ -46,6 +48,21 @@ func VerifC17() {
 			continue
 		}
 		ds.dataManagerClients[node] = c
+	}
+	// the kind of error a failing lookup returns: a plain error or a gRPC status (several codes)
+	switch verifrt.Choose("failure-kind", verifrt.Bound("failkinds", 1)) {
+	case 1:
+		for _, c := range clients {
+			c.infoFailStatus = codes.Canceled
+		}
+	case 2:
+		for _, c := range clients {
+			c.infoFailStatus = codes.Unavailable
+		}
+	case 3:
+		for _, c := range clients {
+			c.infoFailStatus = codes.DeadlineExceeded
+		}
 	}
 	var wantLen, wantBytes uint64
 	anyRemote := false
